@@ -236,7 +236,7 @@ func runC01(r *Run) error {
 		// directory and/or LoadFromSnapshot of the older snapshot -- into an empty or a non-empty
 		// store.  Nothing is synced afterwards, so its view is whatever those routes built.
 		oc := nw + 2
-		route := []string{"restart-load-snapshot", "snapshot-into-nonempty", "restart-load", "restart-snapshot-then-sync"}[r.Rng.Intn(4)]
+		route := []string{"restart-load-snapshot", "snapshot-into-nonempty", "restart-load", "restart-snapshot-then-sync", "restart-load-n-loadmore"}[r.Rng.Intn(5)]
 		if err := syncObserved(oc, headSets[r.Rng.Intn(len(headSets))], "prefix"); err != nil {
 			return err
 		}
@@ -271,6 +271,34 @@ func runC01(r *Run) error {
 		if route != "snapshot-into-nonempty" {
 			if err := c13Reopen(s, oc); err != nil {
 				return err
+			}
+		}
+		if route == "restart-load-n-loadmore" {
+			// a limited load, then the rest handed to the replicator (paging): the entries arrive
+			// BELOW what the log holds, its heads do not change
+			total := s.Stores[oc].OpLog().Len()
+			full := s.Stores[0].OpLog().Values().Slice()
+			n := 1
+			if total > 2 {
+				n = 1 + r.Rng.Intn(total-1)
+			}
+			if err := loadStep("load-n", func() error { return s.Stores[oc].Load(ctx01, n) }); err != nil {
+				return err
+			}
+			var missing []ipfslog.Entry
+			for _, e := range full {
+				if _, ok := s.Stores[oc].OpLog().Get(e.GetHash()); !ok {
+					missing = append(missing, e)
+				}
+			}
+			if len(missing) > 0 {
+				if err := loadStep("load-more-from", func() error {
+					sim.TheHooks.DirectLoads++
+					s.Stores[oc].LoadMoreFrom(ctx01, uint(len(missing)), missing)
+					return nil
+				}); err != nil {
+					return err
+				}
 			}
 		}
 		if route == "restart-load-snapshot" || route == "restart-load" {
